@@ -100,3 +100,51 @@ Lemma former_deadlock_completes_l :
   (exists e, nth_error (emits st) 1 = Some e /\ epc e = EDone) /\
   (exists m, nth_error (emitters st) 1 = Some m /\ mnew m = 4) /\ panicked st = false.
 Proof. vm_compute. repeat split; eexists; split; reflexivity. Qed.
+
+(* ---- GENUINE DEFECT still present after 8aeecd5 (known_findings/C15.json) -------------
+   Two multi-type Subscribes with crossing type orders, each half registered (joined its
+   first node, waiting for the lock of its second), and two Emits, each holding the node
+   lock the other Subscribe needs and stalled on the channel of a subscription whose
+   Subscribe has not returned - so that no consumer can read it and nobody can close it.
+   No bus lock is involved: node.emit sends, under n.lk, to sinks of subscriptions that
+   are not yet handed to their caller.  Replayed on the real bus (5 of 5 attempts). *)
+Definition emit_in_flight' (e : emit) : bool := match epc e with E0 | EDone => false | _ => true end.
+Definition sub_in_flight' (c : sub) : bool :=
+  (match spc c with S0 | SDone => false | _ => true end) || (match cpc c with K0 | KDone => false | _ => true end).
+Definition handed_out (st : state) (x : nat) : bool :=
+  match nth_error (subs st) x with Some c => (match spc c with SDone => true | _ => false end) | None => false end.
+Definition emit_stalled_on_handed_out (st : state) (e : emit) : bool :=
+  match epc e with ESend _ (x :: _) | EWSend _ (x :: _) => handed_out st x | _ => false end.
+(* nothing but environment stimuli is enabled, operations are in flight, and every
+   stalled sender is stalled on a subscription nobody holds yet *)
+Definition deadlocked (st : state) : bool :=
+  quiescent step thrs stim st && (existsb emit_in_flight' (emits st) || existsb sub_in_flight' (subs st))
+  && negb (existsb (emit_stalled_on_handed_out st) (emits st)).
+Definition no_deadlock_full : Prop := forall st sched, initial st -> deadlocked (run step st sched) = false.
+
+Definition dl2_init : state :=
+  init_state 2 [new_sub (Some [0; 1]) 0; new_sub (Some [1; 0]) 0; new_sub (Some [0]) 0]
+             [new_emitter 0 false; new_emitter 1 false] [new_emit 0 100%Z; new_emit 0 101%Z; new_emit 1 102%Z].
+
+Definition dl2_sched : list thr :=
+  [TEmNew 0; TEmNew 0; TEmNew 0; TEmNew 0; TEmNew 1; TEmNew 1; TEmNew 1; TEmNew 1;
+   TSub 2; TSub 2; TSub 2; TReplay 2 0; TSub 2;          (* sub2 = Subscribe(T0), returned, slow consumer *)
+   TEmit 0; TEmit 0; TEmit 0;                            (* Emit(100): holds T0's lock, stalled on sub2 *)
+   TSub 0; TSub 0;                                       (* sub0 = Subscribe([T0,T1]): waits for T0's lock *)
+   TEmit 1; TEmit 1;                                     (* Emit(101): waits for T0's lock *)
+   TSub 1; TSub 1; TSub 1; TReplay 1 0; TSub 1;          (* sub1 = Subscribe([T1,T0]): joined T1, waits for T0's lock *)
+   TEmit 2; TEmit 2; TEmit 2;                            (* Emit(102): holds T1's lock, stalled on sub1 (not returned) *)
+   TReq 2; TEmit 0; TRecv 2; TRead 2; TEmit 0; TEmit 0; TEmit 0;   (* sub2's consumer reads 100; Emit(100) returns *)
+   TSub 0; TReplay 0 0; TSub 0;                          (* sub0 joins T0, then waits for T1's lock *)
+   TEmit 1;                                              (* Emit(101) takes T0's lock: sinks [sub2; sub0] *)
+   TReq 2; TEmit 1; TRecv 2; TRead 2;                    (* sub2's consumer reads 101 *)
+   TEmit 1].                                             (* stalled on sub0 (not returned), holding T0's lock *)
+
+Lemma no_deadlock_full_refuted_l : ~ no_deadlock_full.
+Proof.
+  intros H.
+  assert (I : initial dl2_init)
+    by exact (init_state_initial 2 [(Some [0; 1], 0); (Some [1; 0], 0); (Some [0], 0)] [new_emitter 0 false; new_emitter 1 false]
+                                 [(0, 100%Z); (0, 101%Z); (1, 102%Z)]).
+  specialize (H dl2_init dl2_sched I). vm_compute in H. discriminate.
+Qed.
